@@ -90,3 +90,41 @@ def symbolic_tets(sx, ncells, V, name="c"):
                 conds.append(C[i] != C[j])
     sx.assume(symx.And(*conds))
     return [tuple(sx.concrete(v) for v in C) for C in cells]
+
+
+def _det3(p, q, r):
+    return (p[0] * (q[1] * r[2] - q[2] * r[1]) - p[1] * (q[0] * r[2] - q[2] * r[0]) + p[2] * (q[0] * r[1] - q[1] * r[0]))
+
+
+def embed_tets(cells, V, tries=400):
+    """concrete coordinates for which the labelled tetrahedral mesh is geometrically valid: no degenerate cell and the two
+    cells of every interior face on opposite sides of it.  Deterministic search over assignments of the generic positions;
+    returns None if none is found (the caller then excludes the labelling)."""
+    import random
+    rnd = random.Random(12345)
+    base = generic_coords(max(V, len(GENERIC)))
+    byface = {}
+    for C in cells:
+        for i in range(4):
+            byface.setdefault(tuple(sorted(C[:i] + C[i + 1:])), []).append(C[i])
+    perm = list(range(len(base)))
+    for _ in range(tries):
+        P = [base[perm[i]] for i in range(V)]
+        ok = True
+        for C in cells:
+            a, b, c, d = (P[x] for x in C)
+            if abs(_det3([a[i] - d[i] for i in range(3)], [b[i] - d[i] for i in range(3)], [c[i] - d[i] for i in range(3)])) < 1e-6:
+                ok = False
+        for fk, apexes in byface.items():
+            if len(apexes) == 2 and ok:
+                a, b, c = (P[x] for x in fk)
+                s = []
+                for ap in apexes:
+                    d = P[ap]
+                    s.append(_det3([b[i] - a[i] for i in range(3)], [c[i] - a[i] for i in range(3)], [d[i] - a[i] for i in range(3)]))
+                if s[0] * s[1] >= 0:
+                    ok = False
+        if ok:
+            return P
+        rnd.shuffle(perm)
+    return None
